@@ -54,6 +54,87 @@ fn is_ext(path: &str) -> bool {
 
 /// values across the field's physical range; `canon` keeps to the range in which the statement
 /// promises read-back of the very value (angles in their canonical interval, positive period)
+fn extreme_value(r: &mut Rng, path: &str, leaf: &str, base: &SPDC) -> Option<f64> {
+  let lg = |r: &mut Rng, lo: f64, hi: f64| r.log_range(lo, hi);
+  Some(match (path, leaf) {
+    (_, "bandwidth_nm") => lg(r, 1e-7, 1e2),
+    (_, "waist_um") => lg(r, 1e-2, 1e5),
+    (_, "average_power_mw") => lg(r, 1e-9, 1e6),
+    (_, "deff_pm_per_volt") => lg(r, 1e-6, 1e3),
+    (_, "length_um") => lg(r, 1e-1, 1e6),
+    (_, "poling_period_um") => lg(r, 1e-3, 1e5),
+    (_, "waist_position_um") => lg(r, 1e-6, 1e6) * if r.coin() { -1.0 } else { 1.0 },
+    (_, "temperature_c") => *r.pick(&[-273.0, -200.0, -1e-7, 1e-7, 600.0, 1500.0]),
+    ("crystal.phi_deg", _) | ("crystal.theta_deg", _) => *r.pick(&[-400.0, 400.0, 1e-9, -1e-9, 359.99999, 720.0]),
+    ("pump.wavelength_nm", _) => base.pump.vacuum_wavelength().value_unsafe * 1e9 * r.range(0.3, 1.0),
+    (_, "wavelength_nm") => {
+      let b: &Beam = if path.starts_with("signal") { &base.signal } else { &base.idler };
+      b.vacuum_wavelength().value_unsafe * 1e9 * r.range(1.0, 4.0)
+    }
+    ("pump.frequency_thz", _) => 299_792.458 / (base.pump.vacuum_wavelength().value_unsafe * 1e9) * r.range(1.0, 3.0),
+    (_, "frequency_thz") => {
+      let b: &Beam = if path.starts_with("signal") { &base.signal } else { &base.idler };
+      299_792.458 / (b.vacuum_wavelength().value_unsafe * 1e9) * r.range(0.25, 1.0)
+    }
+    (_, "theta_deg") => *r.pick(&[1e-9, -1e-9, 179.99999, -179.99999, 1e-300]),
+    (_, "phi_deg") => *r.pick(&[1e-9, 359.9999, 1e-300, 180.0]),
+    _ => return None,
+  })
+}
+
+/// the swept setup's physical value behind a path, in the path's unit, read through the getters
+/// (the configuration rounds to 4 decimals and would hide differences below 1e-4)
+fn physical_of(s: &SPDC, path: &str) -> Option<f64> {
+  let deg = DEG.value_unsafe;
+  let two_pi = spdcalc::TWO_PI;
+  let (head, leaf) = path.split_once('.').unwrap_or(("", path));
+  let beam: Option<&Beam> = match head {
+    "signal" => Some(&s.signal),
+    "idler" => Some(&s.idler),
+    "pump" => Some(&s.pump),
+    _ => None,
+  };
+  Some(match (head, leaf) {
+    ("crystal", "phi_deg") => s.crystal_setup.phi.value_unsafe / deg,
+    ("crystal", "theta_deg") => s.crystal_setup.theta.value_unsafe / deg,
+    ("crystal", "length_um") => s.crystal_setup.length.value_unsafe / 1e-6,
+    ("crystal", "temperature_c") => s.crystal_setup.temperature.value_unsafe - 273.15,
+    (_, "theta_deg") => beam?.theta_internal().value_unsafe / deg,
+    (_, "phi_deg") => beam?.phi().value_unsafe / deg,
+    (_, "frequency_thz") => beam?.frequency().value_unsafe / (two_pi * 1e12),
+    (_, "wavelength_nm") => beam?.vacuum_wavelength().value_unsafe / 1e-9,
+    (_, "waist_um") => {
+      let w = beam?.waist();
+      if w.x != w.y {
+        return None;
+      }
+      w.x.value_unsafe / 1e-6
+    }
+    ("signal", "waist_position_um") => s.signal_waist_position.value_unsafe / 1e-6,
+    ("idler", "waist_position_um") => s.idler_waist_position.value_unsafe / 1e-6,
+    ("pump", "average_power_mw") => s.pump_average_power.value_unsafe,
+    ("pump", "bandwidth_nm") => s.pump_bandwidth.value_unsafe / 1e-9,
+    ("periodic_poling", "poling_period_um") => match &s.pp {
+      PeriodicPoling::On { period, .. } => period.value_unsafe / 1e-6,
+      PeriodicPoling::Off => return None,
+    },
+    ("", "deff_pm_per_volt") => s.deff.value_unsafe / 1e-15,
+    _ => return None,
+  })
+}
+
+/// requested value vs physical value: 1e-12 relative (kelvin offset and angle normalisation: absolute)
+fn physical_matches(path: &str, v: f64, got: f64) -> bool {
+  let leaf = path.rsplit('.').next().unwrap();
+  let want = if leaf == "poling_period_um" { v.abs() } else { v };
+  let abs_floor = match leaf {
+    "temperature_c" => 1e-10,
+    "theta_deg" | "phi_deg" => 1e-10,
+    _ => 0.0,
+  };
+  got == want || (got - want).abs() <= 1e-12 * want.abs().max(got.abs()) + abs_floor
+}
+
 fn gen_value(r: &mut Rng, path: &str, canon: bool, base: &SPDC) -> f64 {
   let d4 = |r: &mut Rng, lo: f64, hi: f64| {
     let v = r.range(lo, hi);
@@ -64,6 +145,13 @@ fn gen_value(r: &mut Rng, path: &str, canon: bool, base: &SPDC) -> f64 {
     }
   };
   let leaf = path.rsplit('.').next().unwrap();
+  // a third of the canonical draws spans the whole physical range of the field, log-uniform over
+  // many decades (very small and very large magnitudes)
+  if canon && r.below(3) == 0 {
+    if let Some(v) = extreme_value(r, path, leaf, base) {
+      return v;
+    }
+  }
   match (path, leaf) {
     ("crystal.phi_deg", _) => d4(r, if canon { 0. } else { -360. }, 360.),
     ("crystal.theta_deg", _) => d4(r, if canon { 0. } else { -180. }, 180.),
@@ -355,6 +443,17 @@ fn frame_case(ctx: &mut Ctx, name: &str, base: &SPDC, p1: &str, v1: f64, p2: &st
         Ok(()) => ctx.s("C18.frame", true, &sig_base, &format!("path={} value={:?} {}", p, v, det)),
         Err(why) => ctx.s("C18.frame", false, &sig_base, &format!("path={} value={:?} {} {}", p, v, why, det)),
       },
+    }
+    // the physical value itself, not only its 4-decimal image
+    if !p.ends_with("theta_external_deg") {
+      if let Some(got) = physical_of(&swept, p) {
+        ctx.s(
+          "C18.frame",
+          physical_matches(p, v, got),
+          &format!("{}/physical", sig_base),
+          &format!("path={} requested={:e} physical={:e} {}", p, v, got, det),
+        );
+      }
     }
   }
   ctx.s("C18.frame", other.is_empty(), "setter/other-fields-changed", &format!("changed={} {}", other.join(","), det));
@@ -719,6 +818,25 @@ pub fn run(ctx: &mut Ctx) {
     k_point(ctx, &base, p1, v1, p2, v2);
   }
 
+  // ---- beam angles outside their canonical interval are stored modulo 360°
+  for (name, base) in bases.iter().take(4) {
+    for p in ["signal.theta_deg", "signal.phi_deg", "idler.theta_deg", "idler.phi_deg"] {
+      for v in [-400.0, 400.0, 720.0, -360.0, 359.99999, -179.99999, 270.0, -90.5] {
+        let cur = physical_of(base, "deff_pm_per_volt").unwrap_or(1.0);
+        let det = format!("base={} path={} value={:?}", name, p, v);
+        match sweep_one(base, p, v, "deff_pm_per_volt", cur) {
+          Some(Ok(s)) => {
+            let got = physical_of(&s, p).unwrap_or(f64::NAN);
+            let turns = ((got - v) / 360.0).round();
+            let ok = (got - v - 360.0 * turns).abs() <= 1e-9;
+            ctx.s("C18.frame", ok, "setter/angle/physical-mod-360", &format!("physical={:e} {}", got, det));
+          }
+          _ => ctx.s("C18.frame", false, "setter/panic", &det),
+        }
+      }
+    }
+  }
+
   // ---- sweep shapes and order
   let direct: Vec<&str> = PATHS.iter().copied().filter(|p| !is_ext(p) && !p.ends_with("frequency_thz")).collect();
   let shapes: Vec<(usize, usize)> = if ctx.thorough {
@@ -818,7 +936,7 @@ pub fn run(ctx: &mut Ctx) {
     "crystal.theta_deg", "crystal.length_um", "crystal.temperature_c", "signal.theta_deg", "signal.wavelength_nm", "idler.wavelength_nm",
     "signal.waist_um", "idler.waist_um", "pump.waist_um", "pump.bandwidth_nm", "signal.waist_position_um", "signal.frequency_thz", "deff_pm_per_volt",
   ];
-  let nval = if ctx.thorough { 40 } else { 8 };
+  let nval = if ctx.thorough { 120 } else { 24 };
   for _ in 0..nval {
     let (name, base) = ctx.rng.pick(&bases).clone();
     let p1 = *ctx.rng.pick(&hand);
@@ -836,8 +954,26 @@ pub fn run(ctx: &mut Ctx) {
       let span = if p.ends_with("_deg") || p.ends_with("temperature_c") || p.ends_with("position_um") { 2.0 } else { 0.02 * x0.abs().max(1.0) };
       (x0 - span * r.unit(), x0 + span * r.unit())
     };
-    let (a1, b1) = around(&mut ctx.rng, p1);
-    let (a2, b2) = around(&mut ctx.rng, p2);
+    let (mut a1, mut b1) = around(&mut ctx.rng, p1);
+    let (mut a2, mut b2) = around(&mut ctx.rng, p2);
+    // every other case: one axis at the far ends of its physical range
+    if ctx.rng.coin() {
+      let leaf = p1.rsplit('.').next().unwrap();
+      if let (Some(x), Some(y)) = (extreme_value(&mut ctx.rng, p1, leaf, &base), extreme_value(&mut ctx.rng, p1, leaf, &base)) {
+        if !leaf.ends_with("_deg") {
+          a1 = x;
+          b1 = y;
+        }
+      }
+    } else {
+      let leaf = p2.rsplit('.').next().unwrap();
+      if let (Some(x), Some(y)) = (extreme_value(&mut ctx.rng, p2, leaf, &base), extreme_value(&mut ctx.rng, p2, leaf, &base)) {
+        if !leaf.ends_with("_deg") {
+          a2 = x;
+          b2 = y;
+        }
+      }
+    }
     let (nx, ny) = (ctx.rng.between(1, 3), ctx.rng.between(1, 3));
     let steps = Steps2D((a1, b1, nx), (a2, b2, ny));
     let det = format!("base={} p1={} p2={} x=({:?},{:?},{}) y=({:?},{:?},{})", name, p1, p2, a1, b1, nx, a2, b2, ny);
